@@ -44,6 +44,10 @@ pub fn doc(r: &mut Rng, obj_keys: bool) -> String {
     if r.chance(50) {
         m.push(format!("\"o\":{{\"p\":{}}}", r.range(0, 3)));
     }
+    if r.chance(60) {
+        // values of different types whose TEXT coincides (200 / "200", true / "true", null / "None")
+        m.push(format!("\"t\":{}", r.pick(&["200", "\"200\"", "1.5", "\"1.5\"", "true", "\"true\"", "null", "\"None\"", "\"null\"", "0", "\"0\"", "false", "\"\"", "[1]", "\"[1]\""])));
+    }
     format!("{{{}}}", m.join(","))
 }
 
@@ -119,7 +123,7 @@ pub fn check(ctx: &mut Ctx) {
         let nk = r.below(3);
         let mut keys: Vec<String> = vec![];
         for _ in 0..nk {
-            let k = r.pick(&["k", "b", "s", "o.p", "n", "missing"]).to_string();
+            let k = r.pick(&["k", "b", "s", "o.p", "n", "missing", "t"]).to_string();
             if !keys.contains(&k) {
                 keys.push(k)
             }
@@ -135,7 +139,7 @@ pub fn check(ctx: &mut Ctx) {
                 3 => Fun::Min(col),
                 4 => Fun::Max(col),
                 5 => Fun::Avg(col),
-                6 => Fun::Distinct(r.pick(&["k", "s", "n", "b", "x"]).to_string()),
+                6 => Fun::Distinct(r.pick(&["k", "s", "n", "b", "x", "t", "t"]).to_string()),
                 7 => Fun::Pct(*r.pick(&[50u32, 90, 99, 10, 75]), col),
                 _ => Fun::Sum(r.pick(&["n", "o.p"]).to_string()),
             };
